@@ -289,6 +289,54 @@ def pair_strategy(draw):
     return {"host": host, "pattern": pattern, "kind": kind}
 
 
+@st.composite
+def isomer_hosts(draw):
+    """Hosts made of 2-3 components that are rearrangements of one another (same atom-label multiset, same bond-label
+    multiset, trees on 3-4 nodes, e.g. C-O-C . C-C-O) and a pattern taken from ONE of them (optionally plus a second
+    one-node component): per-component bookkeeping keyed on label/degree invariants confuses such components."""
+    k = draw(st.integers(3, 4))
+    labels = [draw(NODE_ST) for _ in range(k)]
+    orders = [draw(EDGE_ST) for _ in range(k - 1)]
+    ncomp = draw(st.integers(2, 3 if k == 3 else 2))
+    nodes, edges, comps = [], [], []
+    nid = 1
+    for _ in range(ncomp):
+        lab = list(draw(st.permutations(labels)))
+        ids = list(range(nid, nid + k))
+        nid += k
+        es = []
+        for i in range(1, k):
+            j = draw(st.integers(0, i - 1))
+            es.append([ids[j], ids[i], dict(orders[i - 1])])
+        nodes += [[i, dict(a)] for i, a in zip(ids, lab)]
+        edges += es
+        comps.append((ids, lab, es))
+    ids, lab, es = comps[draw(st.integers(0, ncomp - 1))]
+    # pattern: a connected piece (1-2 bonds) of that component, fresh ids
+    take = draw(st.integers(1, len(es)))
+    chosen = es[:take] if draw(st.booleans()) else es[-take:]
+    pn = sorted({u for u, v, _ in chosen} | {v for u, v, _ in chosen})
+    ren = {n: 100 + t for t, n in enumerate(pn)}
+    attr = dict(zip(ids, lab))
+    pat_nodes = [[ren[n], dict(attr[n], hcount=0) if "hcount" in attr[n] else dict(attr[n])] for n in pn]
+    pat_edges = [[ren[u], ren[v], dict(a)] for u, v, a in chosen]
+    # keep the pattern connected: drop edges not attached to the first chosen one
+    import networkx as _nx
+
+    g = _nx.Graph()
+    g.add_nodes_from(n for n, _ in pat_nodes)
+    g.add_edges_from((u, v) for u, v, _ in pat_edges)
+    keep = max(_nx.connected_components(g), key=len)
+    pat_nodes = [x for x in pat_nodes if x[0] in keep]
+    pat_edges = [x for x in pat_edges if x[0] in keep and x[1] in keep]
+    if draw(st.booleans()):
+        extra = draw(NODE_ST)
+        pat_nodes.append([199, dict(extra, hcount=0) if "hcount" in extra else dict(extra)])
+    order = draw(st.permutations(list(range(len(nodes)))))
+    host = {"nodes": [nodes[i] for i in order], "edges": list(draw(st.permutations(edges)))}
+    return {"host": host, "pattern": {"nodes": pat_nodes, "edges": pat_edges}, "kind": "isomer-components"}
+
+
 def cfg_strategy(limits):
     d = dict(
         node_attrs=st.sampled_from(NODE_SELECTIONS),
@@ -303,7 +351,7 @@ def cfg_strategy(limits):
 
 
 def strat_unlimited(tier):
-    return st.builds(lambda p, c: dict(p, cfg=c), pair_strategy(), cfg_strategy(False))
+    return st.builds(lambda p, c: dict(p, cfg=c), st.one_of(pair_strategy(), pair_strategy(), isomer_hosts()), cfg_strategy(False))
 
 
 def strat_limits(tier):
